@@ -1074,6 +1074,11 @@ class PackBasedObjectStore(PackCapableObjectStore, PackedObjectContainer):
         """
         if self.contains_packed(sha) or self.contains_loose(sha):
             return True
+        # A concurrent repack may have moved the object from loose storage
+        # into a new pack after the packs were searched; look again (this
+        # rescans the pack directory), like git's reprepare_packed_git().
+        if self.contains_packed(sha):
+            return True
         for alternate in self.alternates:
             if sha in alternate:
                 return True
@@ -1431,6 +1436,13 @@ class PackBasedObjectStore(PackCapableObjectStore, PackedObjectContainer):
         ret = self._get_loose_object(hexsha)
         if ret is not None:
             return ret.type_num, ret.as_raw_string()
+        # A concurrent repack may have moved the object from loose storage
+        # into a new pack after the packs were searched; look again (this
+        # rescans the pack directory), like git's reprepare_packed_git().
+        try:
+            return self._lookup_in_packs(lambda p: p.get_raw(sha))
+        except KeyError:
+            pass
         for alternate in self.alternates:
             try:
                 return alternate.get_raw(hexsha)
